@@ -58,6 +58,15 @@ pub fn mk_sock(cid: u64) -> Sock {
     let rx = OwningQueue::new(rxq).unwrap();
     VirtIOSocket { transport: t, rx, tx, event, guest_cid: cid }
 }
+/// socket whose queues exist but are never used (all packet I/O stubbed by the caller)
+pub fn mk_sock_stubbed(cid: u64) -> Sock {
+    lg_init_concrete();
+    let mut t = mt::<VsDev>(DeviceType::Socket, 0);
+    let rxq = VirtQueue::new(&mut t, RX_QUEUE_IDX, false, false, false).unwrap();
+    let tx = VirtQueue::new(&mut t, TX_QUEUE_IDX, false, false, false).unwrap();
+    let event = VirtQueue::new(&mut t, EVENT_QUEUE_IDX, false, false, false).unwrap();
+    VirtIOSocket { transport: t, rx: mk_owning_raw(rxq), tx, event, guest_cid: cid }
+}
 pub fn any_info() -> ConnectionInfo {
     ConnectionInfo {
         dst: VsockAddr { cid: kani::any(), port: kani::any() },
@@ -305,4 +314,11 @@ fn c08_socket_new() {
     }
     kani::cover!(k == 4);
     kani::cover!(k == 0);
+}
+
+// accessors for the manager-level harness module
+pub fn ci_fwd_cnt(c: &ConnectionInfo) -> u32 { c.fwd_cnt }
+pub fn ci_pending(c: &ConnectionInfo) -> bool { c.has_pending_credit_request }
+pub fn any_info_for(peer: VsockAddr, port: u32, buf_alloc: u32) -> ConnectionInfo {
+    ConnectionInfo { dst: peer, src_port: port, buf_alloc, ..any_info() }
 }
